@@ -107,15 +107,26 @@ func vfServeScenario(rec *vfRec, sc map[string]any, sockPath string) {
 		cnt.mu.Unlock()
 		rec.raw(m)
 	}
+	// Quiescence is decided from the scheduler's own view, not from elapsed time: every other goroutine is parked
+	// (channel, select, mutex, WaitGroup, network poller), the notify socket is empty, and no event was recorded
+	// between two such observations. A loaded machine only makes this slower, never wrong.
+	var drain func() int
 	settle := func() {
 		stable := 0
 		last := -1
-		for i := 0; i < 400 && stable < 3; i++ {
-			time.Sleep(2 * time.Millisecond)
+		for i := 0; i < 20000 && stable < 2; i++ {
+			if i > 0 {
+				time.Sleep(100 * time.Microsecond)
+			}
+			blocked := vfAllBlocked()
+			got := 0
+			if drain != nil {
+				got = drain()
+			}
 			cnt.mu.Lock()
 			n := cnt.n
 			cnt.mu.Unlock()
-			if n == last {
+			if blocked && got == 0 && n == last {
 				stable++
 			} else {
 				stable = 0
@@ -135,20 +146,29 @@ func vfServeScenario(rec *vfRec, sc map[string]any, sockPath string) {
 		panic(fmt.Sprintf("vf: %v", err))
 	}
 	defer pc.Close()
-	go func() {
-		buf := make([]byte, 4096)
+	rawc, err := pc.SyscallConn()
+	if err != nil {
+		panic(fmt.Sprintf("vf: %v", err))
+	}
+	dbuf := make([]byte, 4096)
+	drain = func() int { // the datagrams the server has written so far (Notify is a synchronous write)
+		got := 0
 		for {
-			n, _, err := pc.ReadFromUnix(buf)
-			if err != nil {
-				return
+			n, rerr := 0, error(nil)
+			if cerr := rawc.Read(func(fd uintptr) bool {
+				n, _, rerr = syscall.Recvfrom(int(fd), dbuf, syscall.MSG_DONTWAIT)
+				return true
+			}); cerr != nil || rerr != nil || n <= 0 {
+				return got
 			}
-			for _, line := range strings.Split(string(buf[:n]), "\n") {
+			got++
+			for _, line := range strings.Split(string(dbuf[:n]), "\n") {
 				if line == "READY=1" {
 					emit(map[string]any{"ev": "nready"})
 				}
 			}
 		}
-	}()
+	}
 	notifier, err := sdnotify.Open(sockPath)
 	if err != nil {
 		panic(fmt.Sprintf("vf: %v", err))
